@@ -171,7 +171,13 @@ def judge_shift(g, res, text, part):
             "%s under shifted handles" % (adds_a, adds_b))
         return
     if any(x != 0 for x in adds_a):
-        cnt["shift_add_refused"] = cnt.get("shift_add_refused", 0) + 1
+        # every standard of these scenarios is valid, also the ones that
+        # name a parameter whose guess / correlate was deleted after it was
+        # made (the parameter holds what it refers to)
+        i_ = [k for k, x in enumerate(adds_a) if x != 0][0]
+        bad("valid-standard-refused", "the shared unknown was made %s; "
+            "standard %d was refused: %s" % (g.shape[6], i_ + 1,
+                                             res.ev(La["add"][i_])))
         return
     sa, sb = res.ev(La["solve"]), res.ev(Lb["solve"])
     if sa is None or sb is None or "ret" not in sa or "ret" not in sb:
